@@ -6,9 +6,12 @@ import (
 	"strings"
 	"ti/base"
 	"ti/lexer"
+	"ti/verifhook"
 )
 
 func (p *Parser) getToken() {
+	verifhook.Token()
+
 	if p.ungetFlg {
 		p.ungetFlg = false
 		p.Lexer.IsSpace = p.Lexer.IsSpacePrev
